@@ -477,6 +477,11 @@ func (w *World) localByName(env *CEnv, name string) *Val {
 				}
 				return &Val{T: v, Typ: et}
 			}
+			if p := spilledParam(a); p != nil {
+				if v, ok := fr.vals[p]; ok && v.T.S != "" {
+					return v
+				}
+			}
 			pv, ok := fr.vals[a]
 			if !ok {
 				unsupported("local %s is not allocated where the contract mentions it", name)
@@ -775,7 +780,18 @@ func (w *World) evalCall(env *CEnv, e *CExpr) *Val {
 			unsupported("ranged(K) takes a loop ordinal")
 		}
 		for h, k := range env.fr.loops.isHeader {
-			if k != int(args[0].Int) || h.Comment != "rangeindex.loop" {
+			if k != int(args[0].Int) {
+				continue
+			}
+			if h.Comment != "rangeindex.loop" {
+				// a counted loop "for i := ...; i < len(S); i++" walks S as a range over S does
+				if _, lenArg := countedLoop(h); lenArg != nil {
+					if v := w.evalOperand(env, lenArg); v != nil && v.T.S != "" {
+						if _, isSlice := v.Typ.Underlying().(*types.Slice); isSlice {
+							return v
+						}
+					}
+				}
 				continue
 			}
 			for _, ins := range h.Instrs {
@@ -808,6 +824,16 @@ func (w *World) evalCall(env *CEnv, e *CExpr) *Val {
 					unsupported("rangeidx(%d): the loop is not running where the contract mentions it", args[0].Int)
 				}
 				return &Val{T: v, Typ: intT}
+			}
+			// counted loop: the index of the element processed last is the loop variable minus one, at the head
+			// (before the element at the variable is processed) and on the back edge (after the increment) alike
+			if a, lenArg := countedLoop(h); a != nil && lenArg != nil {
+				if !a.Heap {
+					if v, live := env.cur.cells[cellID{env.fr.id, a}]; live {
+						return &Val{T: sub(v, intLit(1)), Typ: intT}
+					}
+				}
+				unsupported("rangeidx(%d): the loop variable is not a plain local where the contract mentions it", args[0].Int)
 			}
 		}
 		unsupported("rangeidx(%d): loop %d is not a range over a slice", args[0].Int, args[0].Int)
@@ -1090,6 +1116,86 @@ func rangeIndexAlloc(h *ssa.BasicBlock) *ssa.Alloc {
 				}
 			}
 		}
+	}
+	return nil
+}
+
+// countedLoop recognises the header of "for i := ...; i < len(S); ..." and returns the loop variable and the
+// operand of len.
+func countedLoop(h *ssa.BasicBlock) (*ssa.Alloc, ssa.Value) {
+	if len(h.Instrs) == 0 {
+		return nil, nil
+	}
+	iff, ok := h.Instrs[len(h.Instrs)-1].(*ssa.If)
+	if !ok {
+		return nil, nil
+	}
+	cmp, ok := iff.Cond.(*ssa.BinOp)
+	if !ok || cmp.Op != token.LSS {
+		return nil, nil
+	}
+	ld, ok := cmp.X.(*ssa.UnOp)
+	if !ok || ld.Op != token.MUL {
+		return nil, nil
+	}
+	a, ok := ld.X.(*ssa.Alloc)
+	if !ok {
+		return nil, nil
+	}
+	c, ok := cmp.Y.(*ssa.Call)
+	if !ok {
+		return nil, nil
+	}
+	if b, ok := c.Call.Value.(*ssa.Builtin); !ok || b.Name() != "len" || len(c.Call.Args) != 1 {
+		return nil, nil
+	}
+	return a, c.Call.Args[0]
+}
+
+// evalOperand evaluates, in the state a clause talks about, an SSA operand that is a chain of loads from locals
+// and fields (the operand of len in a counted loop's condition is recomputed on every iteration, so its SSA
+// value may not exist yet where a clause mentions the loop).
+func (w *World) evalOperand(env *CEnv, v ssa.Value) *Val {
+	switch x := v.(type) {
+	case *ssa.Parameter, *ssa.FreeVar, *ssa.Const, *ssa.Global:
+		if val, ok := env.fr.vals[v]; ok {
+			return val
+		}
+		if c, ok := v.(*ssa.Const); ok {
+			return w.constVal(c)
+		}
+	case *ssa.UnOp:
+		if x.Op != token.MUL {
+			break
+		}
+		switch a := x.X.(type) {
+		case *ssa.Alloc:
+			if !a.Heap {
+				if cur, live := env.cur.cells[cellID{env.fr.id, a}]; live {
+					return &Val{T: cur, Typ: deref(a.Type())}
+				}
+				return nil
+			}
+			if pv, ok := env.fr.vals[a]; ok {
+				return w.loadPtrQuiet(env.state(), pv, a.Type())
+			}
+		case *ssa.FieldAddr:
+			base := w.evalOperand(env, a.X)
+			if base == nil || base.T.S == "" {
+				return nil
+			}
+			pt := deref(a.X.Type())
+			stt, ok := pt.Underlying().(*types.Struct)
+			if !ok {
+				return nil
+			}
+			key := w.fieldKey(pt, a.Field)
+			env.noteRead(key, base.T)
+			return &Val{T: sel(w.hget(env.state(), key), base.T), Typ: stt.Field(a.Field).Type()}
+		}
+	}
+	if val, ok := env.fr.vals[v]; ok {
+		return val
 	}
 	return nil
 }
